@@ -105,7 +105,9 @@ func (h *legacyHandler) tickResourcePackQueue() error {
 					Hash:   queued.Hash,
 					Status: DeclinedResponseStatus,
 				}
-				_, err := h.onResourcePackResponseLocked(resBundle, h.shouldDisconnectForForcePack)
+				// This loop advances the queue itself: the nested response must not tick
+				// the queue again, or the pack the loop stops at is prompted twice.
+				_, err := h.handleResponseLocked(resBundle, h.shouldDisconnectForForcePack, false)
 				if err != nil {
 					return err
 				}
@@ -140,6 +142,16 @@ func (h *legacyHandler) onResourcePackResponse(
 func (h *legacyHandler) onResourcePackResponseLocked(
 	bundle *ResponseBundle,
 	shouldDisconnectForForcePack func(e *PlayerResourcePackStatusEvent) bool,
+) (bool, error) {
+	return h.handleResponseLocked(bundle, shouldDisconnectForForcePack, true)
+}
+
+// handleResponseLocked must be called with the handler's lock held. tick tells
+// whether the next queued pack is sent after a final response.
+func (h *legacyHandler) handleResponseLocked(
+	bundle *ResponseBundle,
+	shouldDisconnectForForcePack func(e *PlayerResourcePackStatusEvent) bool,
+	tick bool,
 ) (bool, error) {
 	peek := bundle.Status.Intermediate()
 	var queued *Info
@@ -180,7 +192,7 @@ func (h *legacyHandler) onResourcePackResponseLocked(
 	}
 
 	var err error
-	if !peek {
+	if !peek && tick {
 		err = h.tickResourcePackQueue()
 	}
 	handled, err2 := h.HandleResponseResult(queued, bundle)
